@@ -11,7 +11,7 @@ cp -r /repo/. $T/r; rm -rf $T/r/.git
 ( cd $T/r && go build ./... 2>$T/build.err ) || { echo "BUILD-FAILS"; head -3 $T/build.err; exit 2; }
 echo "  suite(root): $(cd $T/r && go test -vet=off -count=1 . 2>&1 | tail -1)"
 for p in $PROPS; do
-  r=$(VERIF_HOME=$T/vh /verif/bin/rcheck -repo $T/r -prop $p)
+  r=$(VERIF_HOME=$T/vh ${RCHECK:-/verif/bin/rcheck} -repo $T/r -prop $p)
   if echo "$r" | grep -q "^VIOLATION"; then echo "  $p FALSE-ALARM: $(echo "$r" | grep -E '^(REFUTED|UNDECIDED)' | head -2 | cut -c1-330 | tr '\n' ' ')"; fi
 done
 echo "  done"
